@@ -6,6 +6,7 @@ import (
 	"github.com/go-i2p/common/base32"
 	"github.com/go-i2p/common/base64"
 	"github.com/go-i2p/common/data"
+	"github.com/go-i2p/common/encrypted_leaseset"
 	"github.com/go-i2p/common/key_certificate"
 	"github.com/go-i2p/common/lease_set"
 	"github.com/go-i2p/common/lease_set2"
@@ -74,9 +75,29 @@ func H_C04_Decoders() {
 //verif:props C04
 //verif:fanout 300
 func H_C04_HeaderFree() {
-	which := nd.IntRange(0, 3)
+	which := nd.IntRange(0, 5)
 	covShape("case", which)
 	switch which {
+	case 4:
+		// one encryption key whose 16-bit LENGTH field is free (all 65,536 values: the solver splits them into
+		// "fits the buffer" -- enumerated, at most ~100 values -- and "does not fit")
+		in := nd.Bytes(391 + 8 + 2 + 1 + 4 + 100)
+		pinDest(in, 0, 7, 4, 0)
+		nd.Assume(in[398]&1 == 0)
+		pin(in, 399, 0, 0, 1, 0, 0xff)
+		ls, _, err := lease_set2.ReadLeaseSet2(in)
+		if err == nil {
+			_, _ = ls.Bytes()
+		}
+	case 5:
+		// EncryptedLeaseSet with a free 16-bit inner length
+		in := nd.Bytes(2 + 32 + 8 + 2 + 70 + 64)
+		pin(in, 0, 0, 11)
+		nd.Assume(in[41]&1 == 0)
+		e, _, err := encrypted_leaseset.ReadEncryptedLeaseSet(in)
+		if err == nil {
+			_, _ = e.Bytes()
+		}
 	case 0:
 		in := nd.Bytes(560)
 		pinDest(in, 0, 7, 4, 0)
